@@ -704,6 +704,107 @@ theorem findL_true_false (ks : List Node) (c : Char) (r : List Sym) (m : Node)
       exact findL_true_false ks c r m h
 end
 
+/-! ### updating a pair that is there keeps the patterns of the hook pairs -/
+
+theorem map_pat_under (pre : List Sym) (l : List Rule) :
+    (l.map (Rule.under pre)).map (·.pat) = (l.map (·.pat)).map (pre ++ ·) := by
+  simp [List.map_map, Function.comp_def]
+
+mutual
+theorem updN_hpats (enc : HookPair → Nat) (hp : HookPair) (n : Node) (p : List Sym) (n' m : Node)
+    (hu : updN (Node.setHooks hp) n p = some n') (hm : findN false n p = .ok m)
+    (hh : m.hooks.isSome = true) :
+    n'.key = n.key ∧ n'.filter = n.filter ∧ (hdenN enc n').map (·.pat) = (hdenN enc n).map (·.pat) := by
+  match n, p with
+  | .mk k d pk f hk lits tok, [] =>
+    simp only [updN, Option.some.injEq] at hu
+    simp only [findN, Except.ok.injEq] at hm
+    subst hu hm
+    simp only [Node.hooks] at hh
+    refine ⟨rfl, rfl, ?_⟩
+    cases hk with
+    | none => simp at hh
+    | some hp0 => simp [hdenN, gN, Node.setHooks, ownH]
+  | .mk k d pk f hk lits tok, .lit c :: r =>
+    simp only [updN] at hu
+    simp only [findN] at hm
+    cases hL : updL (Node.setHooks hp) lits c r with
+    | none => rw [hL] at hu; simp at hu
+    | some l =>
+      rw [hL] at hu
+      simp only [Option.map_some, Option.some.injEq] at hu
+      subst hu
+      refine ⟨rfl, rfl, ?_⟩
+      simp only [hdenN, gN, List.map_append]
+      rw [updL_hpats enc hp lits c r l m hL hm hh]
+  | .mk k d pk f hk lits tok, .tok g :: r =>
+    simp only [updN] at hu
+    simp only [findN] at hm
+    cases hT : updT (Node.setHooks hp) tok r with
+    | none => rw [hT] at hu; simp at hu
+    | some t =>
+      rw [hT] at hu
+      simp only [Option.map_some, Option.some.injEq] at hu
+      subst hu
+      refine ⟨rfl, rfl, ?_⟩
+      simp only [hdenN, gN, List.map_append]
+      rw [updT_hpats enc hp tok g r t m hT hm hh]
+theorem updT_hpats (enc : HookPair → Nat) (hp : HookPair) (t : Option Node) (g : Option Fid) (r : List Sym)
+    (t' : Option Node) (m : Node) (hu : updT (Node.setHooks hp) t r = some t')
+    (hm : findT false t g r = .ok m) (hh : m.hooks.isSome = true) :
+    (gT (ownH enc) t').map (·.pat) = (gT (ownH enc) t).map (·.pat) := by
+  match t with
+  | none => simp [updT] at hu
+  | some t0 =>
+    simp only [updT] at hu
+    simp only [findT, Bool.false_and, Bool.false_eq_true, if_false] at hm
+    cases hN : updN (Node.setHooks hp) t0 r with
+    | none => rw [hN] at hu; simp at hu
+    | some t1 =>
+      rw [hN] at hu
+      simp only [Option.map_some, Option.some.injEq] at hu
+      subst hu
+      obtain ⟨_, hfl, hpat⟩ := updN_hpats enc hp t0 r t1 m hN hm hh
+      simp only [hdenN] at hpat
+      simp only [gT, map_pat_under, hfl, hpat]
+theorem updL_hpats (enc : HookPair → Nat) (hp : HookPair) (ks : List Node) (c : Char) (r : List Sym)
+    (ks' : List Node) (m : Node) (hu : updL (Node.setHooks hp) ks c r = some ks')
+    (hm : findL false ks c r = .ok m) (hh : m.hooks.isSome = true) :
+    (gL (ownH enc) ks').map (·.pat) = (gL (ownH enc) ks).map (·.pat) := by
+  match ks with
+  | [] => simp [updL] at hu
+  | k :: ks =>
+    simp only [updL] at hu
+    simp only [findL] at hm
+    split at hu
+    · rename_i hc
+      rw [if_pos hc] at hm
+      cases hs : stripKey k.key (.lit c :: r) with
+      | none => rw [hs] at hu; simp at hu
+      | some rest =>
+        rw [hs] at hu hm
+        simp only [Option.elim] at hu hm
+        cases hN : updN (Node.setHooks hp) k rest with
+        | none => rw [hN] at hu; simp at hu
+        | some k1 =>
+          rw [hN] at hu
+          simp only [Option.map_some, Option.some.injEq] at hu
+          subst hu
+          obtain ⟨hkey, _, hpat⟩ := updN_hpats enc hp k rest k1 m hN hm hh
+          simp only [hdenN] at hpat
+          simp only [gL, List.map_append, map_pat_under, hkey, hpat]
+    · rename_i hc
+      rw [if_neg hc] at hm
+      cases hX : updL (Node.setHooks hp) ks c r with
+      | none => rw [hX] at hu; simp at hu
+      | some ks1 =>
+        rw [hX] at hu
+        simp only [Option.map_some, Option.some.injEq] at hu
+        subst hu
+        simp only [gL, List.map_append]
+        rw [updL_hpats enc hp ks c r ks1 m hX hm hh]
+end
+
 /-! ### `_set` on a live tree of compatible patterns fails only at the node it reaches -/
 
 mutual
